@@ -105,7 +105,7 @@ def _step(cur, seg):
 
 def generate(rng, tier):
     n = 1200 if tier == 'quick' else 12000
-    cases = [{'kind': 'custom', 'i': i} for i in range(len(custom_scenarios()))]
+    cases = [{'kind': 'custom', 'i': i} for i in range(len(custom_scenarios()) + 4)]
     for _ in range(n):
         tg = TargetGen(rng)
         target = tg.value(rng.choice([2, 3, 3, 4]))
@@ -231,8 +231,51 @@ def custom_scenarios():
     return out
 
 
+def _reghist(exact, use_first):
+    """a Glommer that already looked the type up (or not), then register(Record, get=..., exact=...): the very next access uses
+    the registered handler — 'the access registered for each intermediate value's type'"""
+    import glom
+
+    class Record:
+        def __init__(self, **fields):
+            self._fields = fields
+            self.label = 'plain-attribute'
+
+    def field(rec, name):
+        return rec._fields[name]
+    g = glom.Glommer()
+    t = {'rec': Record(x=Record(y='LEAF'), label='registered-field')}
+    if use_first:
+        try:
+            g.glom(t, 'rec.label')
+        except glom.GlomError:
+            pass
+    g.register(Record, get=field, exact=exact)
+    got = []
+    for spec in ('rec.x.y', glom.Path('rec', 'x', 'y'), 'rec.label'):
+        try:
+            got.append(g.glom(t, spec))
+        except glom.PathAccessError as e:
+            got.append(('PathAccessError', e.part_idx, type(e.exc).__name__))
+    try:
+        g.glom(t, 'rec.nope.z')
+        got.append('no error')
+    except glom.PathAccessError as e:
+        got.append(('PathAccessError', e.part_idx, type(e.exc).__name__))
+    return got
+
+
 def run_custom(case):
     import glom
+    n = len(custom_scenarios())
+    if case['i'] >= n:
+        exact, use_first = [(True, True), (True, False), (False, True), (False, False)][case['i'] - n]
+        got = _reghist(exact, use_first)
+        want = ['LEAF', 'LEAF', 'registered-field', ('PathAccessError', 1, 'KeyError')]
+        if got != want:
+            return {'problems': ['registration (exact=%s) %s an earlier access of the same type: %r, required %r'
+                                 % (exact, 'after' if use_first else 'without', got, want)]}
+        return {'problems': []}
     name, mk, spec, idx, inner = custom_scenarios()[case['i']]
     try:
         res = glom.glom(mk(), spec)
